@@ -118,9 +118,10 @@ func Enter(kind, path, arg string, mut bool) *OpRec {
 	c := curCtx()
 	r := &OpRec{c: c, op: scen.Op{Seq: nextSeq(), Task: c.Task, Call: c.Call, Exec: c.Exec, Kind: kind, Path: path, Arg: arg, Mut: mut}}
 	if len(faults) > 0 {
-		r.Fault = matchFault(kind, path, c)
+		r.Fault = matchFault(kind, path, arg, c)
 		if r.Fault != nil {
 			r.op.Fault = true
+			r.op.RO = r.Fault.Kind == "rofile" || r.Fault.Kind == "aofile"
 			if r.Fault.Kill {
 				r.op.Err = "KILL"
 				c.ops = append(c.ops, r.op)
@@ -140,9 +141,39 @@ func nextSeq() int64 {
 	return opSeq
 }
 
-func matchFault(kind, path string, c *Ctx) *scen.Fault {
+// Exists tells whether a nominal path exists on the simulated disk (set by simos).
+var Exists func(nominal string) bool
+
+// writeIntent: the operation asks for write access to an existing file.
+func writeIntent(kind, arg string) bool {
+	switch kind {
+	case "writefile", "truncate":
+		return true
+	case "openfile":
+		return contains(arg, "wr")
+	}
+	return false
+}
+
+func matchFault(kind, path, arg string, c *Ctx) *scen.Fault {
 	for i := range faults {
 		f := &faults[i]
+		if f.Kind == "rofile" {
+			// a read-only file: every request for write access to it is refused, reading,
+			// renaming and unlinking are not
+			if f.PathSuffix != "" && contains(path, f.PathSuffix) && writeIntent(kind, arg) && Exists != nil && Exists(path) {
+				return f
+			}
+			continue
+		}
+		if f.Kind == "aofile" {
+			// an append-only file (chattr +a): it can be read and opened for appending, every
+			// other request for write access is refused
+			if f.PathSuffix != "" && contains(path, f.PathSuffix) && writeIntent(kind, arg) && !(kind == "openfile" && contains(arg, "append") && !contains(arg, "trunc")) && Exists != nil && Exists(path) {
+				return f
+			}
+			continue
+		}
 		if f.Kind != kind {
 			continue
 		}
@@ -202,6 +233,8 @@ func (r *OpRec) FaultErr() error {
 		return syscall.ENOENT
 	case "EINTR":
 		return syscall.EINTR
+	case "EPERM":
+		return syscall.EPERM
 	case "":
 		return nil
 	}
